@@ -100,3 +100,18 @@ def conjuncts(test, truth: bool) -> List[Tuple[ast.AST, bool]]:
             return out
         return [(test, truth)]
     return [(test, truth)]
+
+
+def ifexp_facts(node) -> List[Tuple[ast.AST, bool]]:
+    """facts known at `node` because it sits in an arm of conditional expressions:  A if t else B"""
+    from .model import parent
+    out = []
+    cur, par = node, parent(node)
+    while par is not None and not isinstance(par, (ast.FunctionDef, ast.AsyncFunctionDef, ast.Lambda, ast.Module)):
+        if isinstance(par, ast.IfExp):
+            if cur is par.body:
+                out += conjuncts(par.test, True)
+            elif cur is par.orelse:
+                out += conjuncts(par.test, False)
+        cur, par = par, parent(par)
+    return out
